@@ -843,7 +843,14 @@ func (ts tasks) numToDo() (todo, notes int) {
 func (s *Server) CancelRequest(id string) {
 	s.mu.Lock()
 	defer s.mu.Unlock()
-	if s.cancelLocked(id) {
+
+	// Cancel the context of the request, but keep its ID reserved: The
+	// handler is still running, and the reservation is released when its
+	// reply is delivered. Releasing it here would let a new request reuse the
+	// ID while the old one is in flight, and the delivery of the old reply
+	// would then cancel (and un-reserve) the new request.
+	if cancel, ok := s.used[id]; ok {
+		cancel()
 		s.log("Cancelled request %s by client order", id)
 	}
 }
